@@ -6,7 +6,7 @@ from vlib import *
 
 OWN = {
     "C12": {"state", "accessor", "retval", "lookup", "capacity", "dump", "copy", "crash"},
-    "C13": {"leak", "ledger", "crash", "copy", "ledger-trace"},
+    "C13": {"leak", "ledger", "crash", "copy", "ledger-trace", "use-after-free", "corrupt", "leak-schema-buffer", "model"},
     "C18": {"equality", "crash"},
 }
 
@@ -202,6 +202,64 @@ def record(ctx, rows, fails, own):
         ctx.log("note: failure kinds owned by other properties:", other)
 
 
+def document_histories(ctx, builds):
+    """spec/Document.tla: ownership of str_ / schema_str_ / the tree across Parse, ParseSchema (valid and invalid
+    input), move, swap, mutation and destruction of two documents."""
+    q = ctx.quick
+    base = "CONSTANTS Docs = {1, 2} TreeSizes = {0, 2} FixSchemaLeak = %s\nSPECIFICATION Spec\nCONSTRAINT Bound\n%sCHECK_DEADLOCK FALSE\n"
+    r = ctx.tlc("Document", cfg=base % ("FALSE", "INVARIANT Exact\nINVARIANT NoDangling\n"), tag="MC_Document", timeout=600, workers=4)
+    if "is violated" in r["out"] or r["exit"] != 0:
+        ctx.add_fail(dict(property="C13", kind="model", sig="model:Document", shape=dict(kind="model"), build="tlc",
+                          detail="Document.tla: Exact / NoDangling violated: " + r["out"][-1200:], case={}, replay=dict(harness="MC_Document")))
+    r2 = ctx.tlc("Document", cfg=base % ("FALSE", "INVARIANT NoLeak\n"), tag="MC_Document_NoLeak", timeout=600, workers=4)
+    leak_in_model = "Invariant NoLeak is violated" in r2["out"]
+    r3 = ctx.tlc("Document", cfg=base % ("TRUE", "INVARIANT NoDangling\n"), tag="MC_Document_naivefix", timeout=600, workers=4)
+    ctx.log(f"MC_Document: {r['distinct']} states, Exact/NoDangling hold; NoLeak {'violated (repeated ParseSchema orphans the previous schema buffer: recorded finding)' if leak_in_model else 'holds'}; "
+            f"naive repair (free the old buffer) {'makes NoDangling fail' if 'is violated' in r3['out'] else 'is safe'}")
+    ctx.extra["document_model_noleak_violated"] = leak_in_model
+    if leak_in_model:
+        ctx.add_fail(dict(property="C13", kind="leak-schema-buffer", sig="leak-schema-buffer", shape=dict(kind="leak-schema-buffer"), build="tlc",
+                          detail="Document.tla: NoLeak is violated by ParseSchema; ParseSchema (two applications on one document)", case=dict(trace=["parseschema", "parseschema"]),
+                          replay=dict(harness="MC_Document_NoLeak")))
+    depth = 12 if q else 25
+    cfg = f"CONSTANTS Docs = {{1, 2}} TreeSizes = {{0, 2}} FixSchemaLeak = FALSE Depth = {depth}\nINIT GInit\nNEXT GNext\nINVARIANT EmitBeh\nCHECK_DEADLOCK FALSE\n"
+    recs = ctx.tlc_emit("Gen_Document", cfg=cfg, simulate=40 if q else 800, depth=depth + 1, workers=8, timeout=1200, xmx="6g")
+    rows = []
+    for bid, r_ in enumerate(recs):
+        for i, st in enumerate(r_["steps"]):
+            a = st["a"]
+            rows.append([str(bid), str(i), a["op"], str(a.get("d", a.get("a", 0))), str(a.get("b", 0)), "1" if a.get("ok") else "0",
+                         str(a.get("k", 0)), str(st["nl"]), str(st["orph"])])
+    p = os.path.join(ctx.work, "doc_steps.tsv")
+    with open(p, "w") as f:
+        for row in rows:
+            f.write("\t".join(row) + "\n")
+    bins = ctx.build("rt_doc.cpp", builds)
+    ledgers = []
+    for b in builds:
+        for al in ("track", "simple"):
+            led = os.path.join(ctx.work, f"doc_ledger_{b}.ndjson") if (al == "track" and b == builds[0]) else "-"
+            # leaks are judged on the tracking allocator's ledger (which knows the recorded schema-buffer finding);
+            # the SimpleAllocator pass is there for ASan's use-after-free / overflow detection
+            env = {"ASAN_OPTIONS": "detect_leaks=0:abort_on_error=0:exitcode=97:allocator_may_return_null=1"} if al == "simple" else None
+            fails, other, n = run_cases(ctx, bins[b], [al, led], p, b, timeout=1500, env=env)
+            ctx.evals += n
+            if led != "-" and os.path.exists(led):
+                ledgers.append(led)
+            for idx, kind, detail in fails:
+                base_k = "crash" if kind.startswith("crash") else kind
+                j = min(idx, len(rows) - 1)
+                k = j
+                while k > 0 and rows[k - 1][0] == rows[j][0]:
+                    k -= 1
+                ctx.add_fail(dict(property="C13", kind=base_k, sig=(kind if base_k == "crash" else base_k), shape=dict(kind=base_k), build=b, allocator=al,
+                                  detail=detail, case=dict(history=[(x[2], x[3], x[4], x[5], x[6]) for x in rows[k:j + 1]]),
+                                  replay=dict(harness="rt_doc.cpp", alloc=al, rows=rows[k:j + 1])))
+    ctx.traces += len(recs) * len(builds) * 2
+    ctx.log(f"document histories: {len(recs)} behaviours ({len(rows)} steps) replayed on tracking and ASan-observed freeing allocators; failures so far {len(ctx.fail)}")
+    return ledgers
+
+
 def run_prop(prop, tier, rule):
     ctx = Ctx(prop, tier)
     q = ctx.quick
@@ -219,6 +277,7 @@ def run_prop(prop, tier, rule):
     ctx.log(f"replayed {len(recs)} behaviours ({len(rows)} steps) x {len(builds)} builds x 2 allocators; "
             f"failures so far {len(ctx.fail)}; drift (model prediction vs code, not a verdict): {drift}")
     if prop == "C13":
+        ledgers += document_histories(ctx, builds)
         for path, matched, total in validate_ledgers(ctx, ledgers):
             ev = open(path).read().splitlines()[matched] if matched < total else ""
             ctx.add_fail(dict(property="C13", kind="ledger-trace", sig="ledger-trace", shape=dict(kind="ledger-trace"), build=builds[0],
